@@ -131,6 +131,31 @@ def addressing_case(rng, dll):
             st.ecu.j1939_dll._rcv_buffer.clear()
             if bad:
                 return bad, dict(dll=dll, cas=[(m, c.state, c.device_address) for c, m in cas], regs=regs)
+    # a complete destination-specific multi-packet transfer from a foreign node (built by hand: a peer may move ANY parameter group
+    # this way, PDU2 groups included) is delivered to exactly the listeners entitled to that destination
+    for d in [x for x in (0x80, 0x90, 0x20, 0xF0, 0x33, 0x34, 0) if owned(x)][:3]:
+        for P in (0xD000, 0xFECA, 0xFEE3):
+            got.clear(); st.sent.clear()
+            pg = [P & 255, (P >> 8) & 255, P >> 16]
+            if dll == 'j1939-22':
+                payload = [(7 * i + d + P) & 255 for i in range(120)]
+                st.notify(can_id(7, 0x4D, d, 0x55), [0, 120, 0, 0, 2, 0, 0, 255, 0] + pg)
+                st.notify(can_id(7, 0x4E, d, 0x55), [0, 1, 0, 0] + payload[:60])
+                st.notify(can_id(7, 0x4E, d, 0x55), [0, 2, 0, 0] + payload[60:])
+                st.notify(can_id(7, 0x4D, d, 0x55), [2, 120, 0, 0, 2, 0, 0, 0, 0] + pg)
+            else:
+                payload = [(7 * i + d + P) & 255 for i in range(14)]
+                st.notify(can_id(7, TP_CM, d, 0x55), [16, 14, 0, 2, 255] + pg)
+                st.notify(can_id(7, TP_DT, d, 0x55), [1] + payload[:7])
+                st.notify(can_id(7, TP_DT, d, 0x55), [2] + payload[7:])
+            wrong = [g for g in got if not may_receive(g[0], d) or g[3] != payload]
+            must = [f'ca{k}' for k, (c, m) in enumerate(cas) if c.state == 2 and c.device_address == d]
+            missing = [n for n in must if [g[0] for g in got].count(n) != 1]
+            if wrong or missing:
+                bad.append(f"multi-packet transfer of PGN {P:#x} from 0x55 to {d:#x} ({dll}): delivered to {[g[0] for g in got]}; not entitled or wrong data "
+                           f"{[g[0] for g in wrong]}; operational CA at that address without exactly one delivery {missing}")
+                return bad, dict(dll=dll, cas=[(m, c.state, c.device_address) for c, m in cas], regs=regs)
+            st.ecu.j1939_dll._rcv_buffer.clear()
     # PDU2 broadcast reaches every listener and every operational CA
     got.clear()
     st.notify(0x18FECA55, [9, 9, 9])
